@@ -90,6 +90,11 @@ def lib(module):
     return m
 
 
+def gen(module):
+    """Import a GENERATED module (it lives in the scratch output directory)."""
+    return importlib.import_module(module)
+
+
 def generator():
     setup_paths()
     m = importlib.import_module("protocol_code_generator.generate.code_generator")
